@@ -1,5 +1,6 @@
 import Psa.C02Bridge
 import Psa.ExpectedFacts
+import Psa.Examples
 /-! # C02 — the built-in checks implement the Pod Security Standards at every version
 Property theorems only; helper lemmas live in `Psa/Standard.lean`, `Psa/C02.lean`, `Psa/RegistryProofs.lean`. -/
 namespace PSA.Props
@@ -39,6 +40,14 @@ theorem C02_keys : Generated.seccompPodAnnKey = seccompPodAnnKey ∧ Generated.s
 /-- the model evaluator is the Standard's own evaluator (`stdEval`, used as the oracle by the correspondence run) -/
 theorem C02_model_is_standard (l : Level) (v : Ver) (p : Pod) (hv : v.requestable) :
     evalPodModel Generated.tables false ⟨l, v⟩ p = stdEval l v p := evalPodModel_eq_stdEval l v p hv
+
+/-- non-vacuity: the hypotheses of C02_restricted are met by a concrete pod and version, on both sides of the verdict -/
+example : Ver.requestable (.mm 1 25) ∧ Ver.requestable .latest := ⟨Or.inr ⟨25, rfl⟩, Or.inl rfl⟩
+example : ApiValid Ex.compliantPod ∧ ApiValid Ex.privPod.pod := by decide
+example : (aggregate (evalPodModel Generated.tables false ⟨.restricted, .mm 1 25⟩ Ex.compliantPod)).allowed = true ∧
+    (aggregate (evalPodModel Generated.tables false ⟨.restricted, .mm 1 25⟩ Ex.plainPod.pod)).allowed = false ∧
+    (aggregate (evalPodModel Generated.tables false ⟨.baseline, .mm 1 25⟩ Ex.plainPod.pod)).allowed = true ∧
+    (aggregate (evalPodModel Generated.tables false ⟨.baseline, .mm 1 25⟩ Ex.privPod.pod)).allowed = false := by decide +kernel
 
 #print axioms C02_model_is_standard
 #print axioms C02_tables_published
